@@ -65,10 +65,6 @@ func c20IDValue(v interface{}) (uint64, bool) {
 var c20EmptyWhy = map[string]string{
 	"liquidation.lockedVault[].selloff_history": "appended only when a completed first-generation lend auction leaves the borrow above the un-liquidation point and " +
 		"the locked borrow is auctioned again (x/liquidation/keeper/liquidate_borrow.go:471,529,586); not driven",
-	"lend.poolAssetLBMapping[].lend_ids":            "deprecated field: no code appends to it (x/lend/keeper/lend.go:425-439 only removes)",
-	"lend.poolAssetLBMapping[].borrow_ids":          "deprecated field: no code appends to it (x/lend/keeper/lend.go:425-439 only removes)",
-	"lend.userAssetLendBorrowMapping[].borrow_id":   "deprecated field: no code appends to it (x/lend/keeper/lend.go:493-498 only removes, keeper.go:256 clears)",
-	"vault.appExtendedPairVaultMapping[].vault_ids": "deprecated field: read by three queries (x/vault/keeper/query_server.go:220,263,364), never written",
 }
 
 // id pairs that are equal in every record of every state, with the reason (module.path:f|g)
